@@ -35,6 +35,7 @@ impl Metadata {
 //@prove utils.Metadata.mode
 //@prove utils.Metadata.ino
 }
+//@item src/utils/fd.rs :: const DANGEROUS_FILESYSTEMS
 //@item src/utils/fd.rs :: trait FdExt
 //@prove utils.proc_subpath
 impl<Fd: AsFd> FdExt for Fd {
@@ -42,7 +43,7 @@ impl<Fd: AsFd> FdExt for Fd {
 //@prove utils.FdExt.reopen
 //@prove utils.FdExt.as_unsafe_path
 //@use utils.FdExt.as_unsafe_path_unchecked
-//@use utils.FdExt.is_magiclink_filesystem
+//@prove utils.FdExt.is_magiclink_filesystem
 }
 //@prove utils.fetch_mnt_id
 } // verus!
